@@ -1,6 +1,110 @@
-From Coq Require Import List NArith Bool.
+(* C11 — property theorems.  Only statements (each closed by [exact] of a
+   lemma of Proofs.v) and non-vacuity examples on closed instances.
+
+   H is SHA-1 (any function in the theorems; injectivity is never assumed).
+   [ign] is the set of ignored directory names (IGNORE_DIRS | ignoreDirs).
+   An [entries] value is the listing of the hashed root directory. *)
+From Coq Require Import List NArith Bool Sorted Permutation.
 Require Import BobV.Gen.ConstsC11 BobV.C11.Model BobV.C11.Proofs.
 Import ListNotations.
 Open Scope N_scope.
+
+(* The struct formats and constants the model was written for are the ones in utils.py now. *)
 Example consts_tie : consts_ok = true.
 Proof. vm_compute. reflexivity. Qed.
+
+(* ---- content exactness, direction 1: the hash is a function of the canonical
+   form (names, types, mode bits, contents, link targets, device numbers below
+   the root; no times, owners, inodes, sizes, ignored directories/files) ... *)
+Theorem hash_dir_canon : forall H ign es1 es2,
+  canon ign es1 = canon ign es2 -> hash_dir H ign es1 = hash_dir H ign es2.
+Proof. exact hash_dir_canon_proof. Qed.
+
+(* ... and the canonical form does not depend on the order in which the
+   directory was listed. *)
+Theorem canon_order_irrelevant : forall ign es1 es2,
+  NoDup (map fst es1) -> (forall e, In e es1 -> ~ In SLASH (fst e)) ->
+  Permutation es1 es2 -> canon ign es1 = canon ign es2.
+Proof. exact canon_order_irrelevant_proof. Qed.
+
+(* ---- content exactness, direction 2: equal hashes give equal canonical forms,
+   or an explicit SHA-1 collision between two byte strings that were hashed for
+   the two trees.  Side conditions: names without NUL, 16 bit modes whose type
+   bits agree with the node, 32 bit device numbers, 20 byte digests. *)
+Theorem hash_dir_injective : forall H ign es1 es2,
+  (forall x, length (H x) = 20%nat) ->
+  wf es1 -> wf es2 ->
+  hash_dir H ign es1 = hash_dir H ign es2 ->
+  canon ign es1 = canon ign es2 \/ collision H (hashed_dir H ign es1) (hashed_dir H ign es2).
+Proof. exact hash_dir_injective_proof. Qed.
+
+(* ---- the index is consulted with strictly increasing names (byte order of
+   FileIndex.__match), for every directory listing: why a merge walk over the
+   sorted cache file can work at all. *)
+Theorem dfs_order_sorted : forall H ign es,
+  listing es -> StronglySorted bytes_lt (check_sequence H ign es).
+Proof. exact check_sequence_sorted_proof. Qed.
+
+(* ---- cache transparency, one run: with ANY cache file whose records are
+   truthful (sorted or not, truncated, stale, from another state of the history)
+   the cached hash is the uncached hash.  [content_of] is the property's premise
+   "every modification changes the stat data": name and stat data determine the
+   content, history-wide. *)
+Theorem cache_transparent : forall H content_of ign f es,
+  file_ok H content_of f -> consistent content_of es -> named es ->
+  fst (hash_cached H ign f es) = hash_dir H ign es.
+Proof. exact cache_transparent_proof. Qed.
+
+(* ================================================================== non-vacuity *)
+
+Example hash_dir_canon_nonvacuous :
+  canon IGNORE_DIRS ex_tree1 = canon IGNORE_DIRS ex_tree1b /\
+  map fst ex_tree1 <> map fst ex_tree1b /\
+  hash_dir H_toy IGNORE_DIRS ex_tree1 = hash_dir H_toy IGNORE_DIRS ex_tree1b /\
+  hash_dir H_toy IGNORE_DIRS ex_tree1 <> hash_dir H_toy IGNORE_DIRS ex_tree2.
+Proof. repeat split; vm_compute; congruence. Qed.
+
+Example hash_dir_injective_nonvacuous :
+  wf ex_tree1 /\ wf ex_tree2 /\ (forall x, length (H_toy x) = 20%nat) /\
+  canon IGNORE_DIRS ex_tree1 <> canon IGNORE_DIRS ex_tree2.
+Proof.
+  split; [|split; [|split]].
+  - unfold wf, ex_tree1, node_wf; simpl; unfold node_wf; simpl; intuition (try discriminate; try reflexivity).
+  - unfold wf, ex_tree2, node_wf; simpl; unfold node_wf; simpl; intuition (try discriminate; try reflexivity).
+  - intros. unfold H_toy. rewrite !app_length, !le_enc_length. reflexivity.
+  - vm_compute. congruence.
+Qed.
+
+(* the side condition on names is needed: same hash (even the same blob), different trees *)
+Example hash_dir_injective_needs_nul_free_names :
+  hash_dir H_toy [] ex_amb1 = hash_dir H_toy [] ex_amb2 /\
+  hashed_dir H_toy [] ex_amb1 = [[49]; blob_of H_toy (norm_entries [] ex_amb2)] /\
+  canon [] ex_amb1 <> canon [] ex_amb2 /\ In 0 ex_nul_name.
+Proof. repeat split; vm_compute; try congruence. do 3 right. left. reflexivity. Qed.
+
+Example dfs_order_sorted_nonvacuous :
+  listing ex_tree2 /\
+  check_sequence H_toy IGNORE_DIRS ex_tree2 = [[97;46;98]; [97;47;108]; [97;47;120]; [98]; [99]].
+Proof.
+  split; [|vm_compute; reflexivity].
+  unfold listing, ex_tree2, node_listing; simpl; unfold node_listing; simpl.
+  repeat split; try discriminate; try (repeat constructor; simpl; intuition discriminate);
+    unfold SLASH; simpl; intuition discriminate.
+Qed.
+
+(* a cached run with hits (a.b, a/l, b) and misses (a/x rewritten with the same size, c new) *)
+Example cache_transparent_nonvacuous :
+  file_ok H_toy ex_content_of ex_cache1 /\ consistent ex_content_of ex_tree2 /\ named ex_tree2 /\
+  ex_cache1 <> None /\
+  check_events (snd (hash_cached_traced H_toy IGNORE_DIRS ex_cache1 ex_tree2)) =
+    [([97;46;98], true); ([97;47;108], true); ([97;47;120], false); ([98], true); ([99], false)] /\
+  fst (hash_cached H_toy IGNORE_DIRS ex_cache1 ex_tree2) = hash_dir H_toy IGNORE_DIRS ex_tree2.
+Proof.
+  split; [|split; [|split; [|split; [|split]]]].
+  - vm_compute. repeat constructor.
+  - vm_compute. repeat split.
+  - vm_compute. intuition discriminate.
+  - vm_compute. discriminate.
+  - vm_compute. reflexivity.
+  - vm_compute. reflexivity.
+Qed.
